@@ -226,8 +226,12 @@ struct SrcSpec {
 struct SrcFamily {
   std::vector<SrcSpec> srcs;
   int vmode = 0;  // 0: unique 4-byte tokens + concatenating merge function; 1: variable-length values + modsum merge function
+  int kpad = 0;   // every key is preceded by this many bytes 'p': with restart interval 1 (every third table source) nothing is
+                  // shared, entries are kpad+ bytes each and a dozen keys span several 1 KiB blocks with shortened separators
+  bytes pk(const bytes &k) const { return kpad ? bytes((size_t)kpad, 'p') + k : k; }
   void ser(Out &o) const {
     if (vmode) o << "vmode " << vmode << "\n";
+    if (kpad) o << "kpad " << kpad << "\n";
     for (size_t i = 0; i < srcs.size(); i++) {
       o << "src " << i << " kind=" << srcs[i].kind;
       for (auto &k : srcs[i].keys) o << " " << (k.empty() ? "-" : hex(k));
@@ -236,6 +240,7 @@ struct SrcFamily {
   }
   void parse_row(const std::vector<std::string> &row) {
     if (row[0] == "vmode" && row.size() > 1) vmode = atoi(row[1].c_str()) ? 1 : 0;
+    if (row[0] == "kpad" && row.size() > 1) kpad = std::max(0, std::min(600, atoi(row[1].c_str())));
     if (row[0] != "src") return;
     SrcSpec s;
     for (size_t i = 2; i < row.size(); i++) {
@@ -267,7 +272,7 @@ struct SrcFamily {
   }
   KVs content(size_t i) const {
     KVs kv;
-    for (size_t j = 0; j < srcs[i].keys.size(); j++) kv.emplace_back(srcs[i].keys[j], family_value(vmode, (int)i, (int)j));
+    for (size_t j = 0; j < srcs[i].keys.size(); j++) kv.emplace_back(pk(srcs[i].keys[j]), family_value(vmode, (int)i, (int)j));
     return kv;
   }
   // merged model under the family's merge function (vmode 0: concatenation in source order, compared as token multisets;
@@ -290,7 +295,7 @@ struct SrcFamily {
   std::map<bytes, int, BLess> occurrences() const {
     std::map<bytes, int, BLess> m;
     for (auto &s : srcs)
-      for (auto &k : s.keys) m[k]++;
+      for (auto &k : s.keys) m[pk(k)]++;
     return m;
   }
 };
@@ -306,6 +311,7 @@ inline SrcFamily gen_family(int max_sources = 6, bool allow_user = true) {
   if (ns == 7) ns = pick(7, 16);  // wide mergers: heaps three and four levels deep
   if (ns > max_sources) ns = max_sources;
   f.vmode = chance(30);
+  if (chance(25)) f.kpad = one_of<int>({120, 200, 400});
   int len_cap = weighted({30, 55, 15}) + 1;  // max key length 1..3
   for (int s = 0; s < ns; s++) {
     SrcSpec sp;
